@@ -37,7 +37,7 @@ def check(rep, ctx):
     R_L = rep.rule("C17-layout", "batch header fields are written in the v2 order with the v2 formats", floor=13)
     R_P = rep.rule("C17-provenance", "every header slot is derived from the records as the format prescribes", floor=10)
     R_F = rep.rule("C17-framing", "batchLength / CRC / appended bytes refer to the same staged bytes; the length constant is "
-                   "the size of the fields between batchLength and the staged bytes", floor=4)
+                   "the size of the fields between batchLength and the staged bytes", floor=2)
     R_R = rep.rule("C17-record", "a record is written as varint length + attributes, timestamp delta, offset delta, key, value, headers", floor=6)
     R_T = rep.rule("C17-time", "timestamp -> millisecond conversions do not truncate an inexact float (T-trunc)", floor=3,
                    necessary_because="1970-01-01T00:00:01.001Z * 1000 = 1000.9999999999999 -> int() -> 1000")
